@@ -474,20 +474,20 @@ func (lr *verifLayerRun) canon(dir, name string, wh bool) string {
 
 func (h *verifC07) noteIno(lr *verifLayerRun, obj string, ino uint64, where string) {
 	if ino>>32 != uint64(lr.b.base) {
-		h.out.Fail("inode-outside-layer-range", fmt.Sprintf("%s: inode %#x of %s is not in the range of base %d", where, ino, obj, lr.b.base))
+		h.fail("inode-outside-layer-range", fmt.Sprintf("%s: inode %#x of %s is not in the range of base %d", where, ino, obj, lr.b.base))
 	}
 	low := ino & 0xffffffff
 	if low == 1 || low == 2 {
 		if obj != "state" && obj != "statfile" {
-			h.out.Fail("inode-collides-with-state", fmt.Sprintf("%s: %s has reserved inode %#x", where, obj, ino))
+			h.fail("inode-collides-with-state", fmt.Sprintf("%s: %s has reserved inode %#x", where, obj, ino))
 		}
 	}
 	if old, ok := lr.inoOf[obj]; ok && old != ino {
-		h.out.Fail("inode-unstable", fmt.Sprintf("%s: %s had inode %#x, now %#x", where, obj, old, ino))
+		h.fail("inode-unstable", fmt.Sprintf("%s: %s had inode %#x, now %#x", where, obj, old, ino))
 	}
 	lr.inoOf[obj] = ino
 	if o, ok := lr.objOf[ino]; ok && o != obj {
-		h.out.Fail("inode-not-unique", fmt.Sprintf("%s: inode %#x is used by %s and %s", where, ino, o, obj))
+		h.fail("inode-not-unique", fmt.Sprintf("%s: inode %#x is used by %s and %s", where, ino, o, obj))
 	}
 	lr.objOf[ino] = obj
 }
@@ -522,6 +522,22 @@ func (h *verifC07) emitNode(lr *verifLayerRun, key string, n *node, isRoot bool)
 	h.out.Emit(fmt.Sprintf("node %s %d %d %d %d %s %s", key, r, n.id, fileModeToSystemMode(attr.Mode),
 		uint32(unix.Mkdev(uint32(attr.DevMajor), uint32(attr.DevMinor))), verifXattrsString(attr.Xattrs), csS), "ok")
 	return true
+}
+
+// verifCandidateSigs are the signatures of the labelled stream (defects of the current code on inputs
+// only that stream generates).  The main stream never produces such inputs, so there the same
+// observation is a different, unexpected failure.
+var verifCandidateSigs = map[string]bool{
+	"whiteout-of-dotwh-name-listed-not-lookupable":       true,
+	"whiteout-of-landmark-listed-in-root-not-lookupable": true,
+	"whiteout-with-empty-or-dot-target-listed":           true,
+}
+
+func (h *verifC07) fail(sig, what string) {
+	if !h.findings && verifCandidateSigs[sig] {
+		sig += "-unexpected"
+	}
+	h.out.Fail(sig, what)
 }
 
 func (h *verifC07) newKey() string {
@@ -579,12 +595,12 @@ func (h *verifC07) exploreDir(lr *verifLayerRun, job verifDirJob) []verifDirJob 
 		out.Count("readdir")
 		if errno != 0 {
 			out.Emit("readdir "+key, "eio")
-			out.Fail("readdir-failed", where("Readdir")+fmt.Sprintf(": errno %d", int(errno)))
+			h.fail("readdir-failed", where("Readdir")+fmt.Sprintf(": errno %d", int(errno)))
 			return
 		}
 		out.Emit("readdir "+key, "ok "+verifEntsString(append([]verifEntOut(nil), es...)))
 		if haveList && verifEntsString(append([]verifEntOut(nil), lastList...)) != verifEntsString(append([]verifEntOut(nil), es...)) {
-			out.Fail("listing-unstable", where("Readdir")+": two calls returned different listings")
+			h.fail("listing-unstable", where("Readdir")+": two calls returned different listings")
 		}
 		lastList, haveList = es, true
 		// ---- oracle: the listing is the overlayfs translation of the source directory ----
@@ -601,63 +617,65 @@ func (h *verifC07) exploreDir(lr *verifLayerRun, job verifDirJob) []verifDirJob 
 				continue
 			}
 			if e.name == "" || e.name == "." || e.name == ".." || strings.Contains(e.name, "/") {
-				out.Fail("whiteout-with-empty-or-dot-target-listed", where("Readdir")+fmt.Sprintf(": invalid entry name %q (mode %o) listed", e.name, e.mode))
+				h.fail("whiteout-with-empty-or-dot-target-listed", where("Readdir")+fmt.Sprintf(": invalid entry name %q (mode %o) listed", e.name, e.mode))
 				continue
 			}
 			if _, dup := seen[e.name]; dup {
-				out.Fail("listing-duplicate-name", where("Readdir")+fmt.Sprintf(": %q listed twice", e.name))
+				h.fail("listing-duplicate-name", where("Readdir")+fmt.Sprintf(": %q listed twice", e.name))
 			}
 			seen[e.name] = e
 			switch {
 			case e.name == verifMarker && raw[verifWh+e.name] == nil:
-				out.Fail("opaque-marker-listed", where("Readdir")+": the opaque marker is listed")
+				h.fail("opaque-marker-listed", where("Readdir")+": the opaque marker is listed")
+			case strings.HasPrefix(e.name, verifWh) && verifWh+e.name == verifMarker:
+				h.fail("opaque-marker-listed-as-whiteout", where("Readdir")+fmt.Sprintf(": the opaque marker is translated like a whiteout, %q is listed", e.name))
 			case strings.HasPrefix(e.name, verifWh):
 				if tgt := verifWh + e.name; raw[tgt] != nil {
-					out.Fail("whiteout-of-dotwh-name-listed-not-lookupable", where("Readdir")+fmt.Sprintf(": %q is listed (whiteout of a name that begins with .wh.)", e.name))
+					h.fail("whiteout-of-dotwh-name-listed-not-lookupable", where("Readdir")+fmt.Sprintf(": %q is listed (whiteout of a name that begins with .wh.)", e.name))
 				} else {
-					out.Fail("dotwh-name-listed", where("Readdir")+fmt.Sprintf(": whiteout file %q is listed", e.name))
+					h.fail("dotwh-name-listed", where("Readdir")+fmt.Sprintf(": whiteout file %q is listed", e.name))
 				}
 			case isRoot && verifIsLandmark(e.name):
 				if raw[verifWh+e.name] != nil {
-					out.Fail("whiteout-of-landmark-listed-in-root-not-lookupable", where("Readdir")+fmt.Sprintf(": %q is listed in the root (whiteout of a landmark name)", e.name))
+					h.fail("whiteout-of-landmark-listed-in-root-not-lookupable", where("Readdir")+fmt.Sprintf(": %q is listed in the root (whiteout of a landmark name)", e.name))
 				} else {
-					out.Fail("landmark-listed-in-root", where("Readdir")+fmt.Sprintf(": %q is listed in the root", e.name))
+					h.fail("landmark-listed-in-root", where("Readdir")+fmt.Sprintf(": %q is listed in the root", e.name))
 				}
 			case isRoot && e.name == estargz.TOCTarName:
-				out.Fail("toc-listed-in-root", where("Readdir")+": the TOC entry is listed in the root")
+				h.fail("toc-listed-in-root", where("Readdir")+": the TOC entry is listed in the root")
 			case isRoot && e.name == stateDirName:
-				out.Fail("state-dir-listed", where("Readdir")+": the state directory is listed")
+				h.fail("state-dir-listed", where("Readdir")+": the state directory is listed")
 			}
 			x, ok := exp[e.name]
 			if !ok {
 				if raw[e.name] != nil || raw[verifWh+e.name] != nil {
 					continue // reported above (hidden name) or below (shadowed whiteout)
 				}
-				out.Fail("listing-extra-name", where("Readdir")+fmt.Sprintf(": %q is listed but the layer has no such entry", e.name))
+				h.fail("listing-extra-name", where("Readdir")+fmt.Sprintf(": %q is listed but the layer has no such entry", e.name))
 				continue
 			}
 			if x.wh {
 				if e.mode != syscall.S_IFCHR {
-					out.Fail("whiteout-not-chr00", where("Readdir")+fmt.Sprintf(": whiteout %q listed with mode %o", e.name, e.mode))
+					h.fail("whiteout-not-chr00", where("Readdir")+fmt.Sprintf(": whiteout %q listed with mode %o", e.name, e.mode))
 				}
 			} else if typ != x.typ {
 				if typ == syscall.S_IFCHR && raw[verifWh+e.name] != nil {
-					out.Fail("whiteout-shadows-real-entry", where("Readdir")+fmt.Sprintf(": %q exists as a real entry (type %o) but is listed as a whiteout", e.name, x.typ))
+					h.fail("whiteout-shadows-real-entry", where("Readdir")+fmt.Sprintf(": %q exists as a real entry (type %o) but is listed as a whiteout", e.name, x.typ))
 				} else {
-					out.Fail("listing-type-mismatch", where("Readdir")+fmt.Sprintf(": %q listed with type %o, the layer says %o", e.name, typ, x.typ))
+					h.fail("listing-type-mismatch", where("Readdir")+fmt.Sprintf(": %q listed with type %o, the layer says %o", e.name, typ, x.typ))
 				}
 			}
 			h.noteIno(lr, lr.canon(dir, e.name, x.wh), e.ino, where("Readdir"))
 		}
 		if ndot != 1 || ndotdot != 1 {
-			out.Fail("dot-entries-missing", where("Readdir")+fmt.Sprintf(": %d '.' and %d '..' entries", ndot, ndotdot))
+			h.fail("dot-entries-missing", where("Readdir")+fmt.Sprintf(": %d '.' and %d '..' entries", ndot, ndotdot))
 		}
 		for nme, x := range exp {
 			if _, ok := seen[nme]; !ok {
 				if x.wh {
-					out.Fail("whiteout-not-listed", where("Readdir")+fmt.Sprintf(": whiteout of %q is not listed as a character device", nme))
+					h.fail("whiteout-not-listed", where("Readdir")+fmt.Sprintf(": whiteout of %q is not listed as a character device", nme))
 				} else {
-					out.Fail("listing-missing-name", where("Readdir")+fmt.Sprintf(": %q is not listed", nme))
+					h.fail("listing-missing-name", where("Readdir")+fmt.Sprintf(": %q is not listed", nme))
 				}
 			}
 		}
@@ -686,10 +704,10 @@ func (h *verifC07) exploreDir(lr *verifLayerRun, job verifDirJob) []verifDirJob 
 		out.Emit(fmt.Sprintf("lookup %s %s %d", key, verifHex(name), adopt), r.line())
 		w := where(fmt.Sprintf("Lookup(%q) [%s]", name, memo))
 		if !r.ok && r.errno != syscall.ENOENT {
-			out.Fail("lookup-errno", w+fmt.Sprintf(": errno %d", int(r.errno)))
+			h.fail("lookup-errno", w+fmt.Sprintf(": errno %d", int(r.errno)))
 		}
 		if prev, ok := lastLookup[name]; ok && prev.stable() != r.stable() {
-			out.Fail("lookup-unstable", w+fmt.Sprintf(": answered %s, earlier %s", r.stable(), prev.stable()))
+			h.fail("lookup-unstable", w+fmt.Sprintf(": answered %s, earlier %s", r.stable(), prev.stable()))
 		}
 		lastLookup[name] = r
 		if name == "." || name == ".." || name == "" {
@@ -697,7 +715,7 @@ func (h *verifC07) exploreDir(lr *verifLayerRun, job verifDirJob) []verifDirJob 
 		}
 		if isRoot && name == stateDirName {
 			if !r.ok || r.kind != "state" || r.stype != syscall.S_IFDIR || r.gaMod != syscall.S_IFDIR|0500 {
-				out.Fail("state-dir-not-served", w+": "+r.line())
+				h.fail("state-dir-not-served", w+": "+r.line())
 			} else {
 				h.noteIno(lr, "state", r.ino, w)
 			}
@@ -705,15 +723,15 @@ func (h *verifC07) exploreDir(lr *verifLayerRun, job verifDirJob) []verifDirJob 
 		}
 		// ---- oracle: hidden names are not reachable ----
 		if r.ok && (strings.HasPrefix(name, verifWh) || (isRoot && verifHiddenRoot(name))) {
-			out.Fail("hidden-name-lookupable", w+": "+r.line())
+			h.fail("hidden-name-lookupable", w+": "+r.line())
 		}
 		// ---- oracle: listing and lookup agree (against the source tar and against the real listing) ----
 		x, want := exp[name]
 		if want != r.ok {
 			if want {
-				out.Fail("listed-not-lookupable", w+": the layer's translation has this name, Lookup failed")
+				h.fail("listed-not-lookupable", w+": the layer's translation has this name, Lookup failed")
 			} else if !strings.HasPrefix(name, verifWh) && !(isRoot && verifHiddenRoot(name)) {
-				out.Fail("lookupable-not-listed", w+": "+r.line()+" but the layer's translation has no such name")
+				h.fail("lookupable-not-listed", w+": "+r.line()+" but the layer's translation has no such name")
 			}
 		}
 		if haveList {
@@ -730,13 +748,13 @@ func (h *verifC07) exploreDir(lr *verifLayerRun, job verifDirJob) []verifDirJob 
 				} else if le != nil && isRoot && verifIsLandmark(name) {
 					sig = "whiteout-of-landmark-listed-in-root-not-lookupable"
 				}
-				out.Fail(sig, w+fmt.Sprintf(": listed=%v lookup-ok=%v", le != nil, r.ok))
+				h.fail(sig, w+fmt.Sprintf(": listed=%v lookup-ok=%v", le != nil, r.ok))
 			} else if le != nil {
 				if le.ino != r.ino {
-					out.Fail("lookup-listing-inode-mismatch", w+fmt.Sprintf(": dirent inode %#x, lookup inode %#x", le.ino, r.ino))
+					h.fail("lookup-listing-inode-mismatch", w+fmt.Sprintf(": dirent inode %#x, lookup inode %#x", le.ino, r.ino))
 				}
 				if le.mode&verifIFMT != r.stype&verifIFMT {
-					out.Fail("lookup-listing-type-mismatch", w+fmt.Sprintf(": dirent type %o, lookup type %o", le.mode&verifIFMT, r.stype&verifIFMT))
+					h.fail("lookup-listing-type-mismatch", w+fmt.Sprintf(": dirent type %o, lookup type %o", le.mode&verifIFMT, r.stype&verifIFMT))
 				}
 			}
 		}
@@ -744,20 +762,20 @@ func (h *verifC07) exploreDir(lr *verifLayerRun, job verifDirJob) []verifDirJob 
 			return
 		}
 		if r.ino != r.sino || (r.ga != "none" && r.gaIno != r.ino) {
-			out.Fail("inode-unstable", w+fmt.Sprintf(": attr inode %#x, stable inode %#x, getattr inode %#x", r.ino, r.sino, r.gaIno))
+			h.fail("inode-unstable", w+fmt.Sprintf(": attr inode %#x, stable inode %#x, getattr inode %#x", r.ino, r.sino, r.gaIno))
 		}
 		if want {
 			h.noteIno(lr, lr.canon(dir, name, x.wh), r.ino, w)
 			// ---- oracle: whiteout <-> character device 0/0 ----
 			isChr00 := r.stype&verifIFMT == syscall.S_IFCHR && r.rdev == 0 && r.gaMod&verifIFMT == syscall.S_IFCHR && r.gaDev == 0
 			if x.wh && (!isChr00 || r.kind != "wh") {
-				out.Fail("whiteout-not-chr00", w+": "+r.line())
+				h.fail("whiteout-not-chr00", w+": "+r.line())
 			}
 			if !x.wh && r.stype&verifIFMT != x.typ {
 				if r.kind == "wh" {
-					out.Fail("whiteout-shadows-real-entry", w+": "+r.line())
+					h.fail("whiteout-shadows-real-entry", w+": "+r.line())
 				} else {
-					out.Fail("lookup-type-mismatch", w+fmt.Sprintf(": type %o, the layer says %o", r.stype&verifIFMT, x.typ))
+					h.fail("lookup-type-mismatch", w+fmt.Sprintf(": type %o, the layer says %o", r.stype&verifIFMT, x.typ))
 				}
 			}
 		}
@@ -799,15 +817,15 @@ func (h *verifC07) exploreDir(lr *verifLayerRun, job verifDirJob) []verifDirJob 
 			answered := errno == 0 || errno == syscall.ERANGE
 			switch {
 			case inMode && expOpaque && !answered:
-				out.Fail("opaque-xattr-missing", w+": "+res)
+				h.fail("opaque-xattr-missing", w+": "+res)
 			case inMode && expOpaque && errno == 0 && string(dest[:nb]) != "y":
-				out.Fail("opaque-xattr-missing", w+": value "+res)
+				h.fail("opaque-xattr-missing", w+": value "+res)
 			case inMode && expOpaque && errno == syscall.ERANGE && (dl >= 1 || nb != 1):
-				out.Fail("opaque-xattr-missing", w+": "+res)
+				h.fail("opaque-xattr-missing", w+": "+res)
 			case !expOpaque && answered:
-				out.Fail("opaque-xattr-on-non-opaque-dir", w+": "+res)
+				h.fail("opaque-xattr-on-non-opaque-dir", w+": "+res)
 			case !inMode && answered:
-				out.Fail("opaque-xattr-outside-configured-mode", w+": "+res)
+				h.fail("opaque-xattr-outside-configured-mode", w+": "+res)
 			}
 			if errno == 0 && string(dest[:nb]) == "y" {
 				opq[name] = true
@@ -868,7 +886,7 @@ func (h *verifC07) exploreDir(lr *verifLayerRun, job verifDirJob) []verifDirJob 
 				} else if !inMode {
 					sig = "opaque-xattr-outside-configured-mode"
 				}
-				out.Fail(sig, w+fmt.Sprintf(": %q listed %d times (opaque=%v, mode=%s)", o, cnt, expOpaque, verifOmNames[lr.b.om]))
+				h.fail(sig, w+fmt.Sprintf(": %q listed %d times (opaque=%v, mode=%s)", o, cnt, expOpaque, verifOmNames[lr.b.om]))
 			}
 		}
 		for k := range xattrsOfDir {
@@ -879,7 +897,7 @@ func (h *verifC07) exploreDir(lr *verifLayerRun, job verifDirJob) []verifDirJob 
 				}
 			}
 			if !found {
-				out.Fail("xattr-lost", w+fmt.Sprintf(": xattr %q of the entry is not listed", k))
+				h.fail("xattr-lost", w+fmt.Sprintf(": xattr %q of the entry is not listed", k))
 			}
 		}
 	}
@@ -889,7 +907,7 @@ func (h *verifC07) exploreDir(lr *verifLayerRun, job verifDirJob) []verifDirJob 
 		out.Count("getattr")
 		if errno != 0 {
 			out.Emit("getattr "+key, "eio")
-			out.Fail("getattr-failed", where("Getattr"))
+			h.fail("getattr-failed", where("Getattr"))
 			return
 		}
 		out.Emit("getattr "+key, fmt.Sprintf("ok %d %d %d", ao.Attr.Mode, ao.Attr.Ino, ao.Attr.Rdev))
@@ -899,7 +917,7 @@ func (h *verifC07) exploreDir(lr *verifLayerRun, job verifDirJob) []verifDirJob 
 		}
 		h.noteIno(lr, obj, ao.Attr.Ino, where("Getattr"))
 		if ao.Attr.Mode&verifIFMT != syscall.S_IFDIR {
-			out.Fail("dir-type-mismatch", where("Getattr")+fmt.Sprintf(": mode %o", ao.Attr.Mode))
+			h.fail("dir-type-mismatch", where("Getattr")+fmt.Sprintf(": mode %o", ao.Attr.Mode))
 		}
 	}
 
@@ -1036,7 +1054,7 @@ func (h *verifC07) exploreDir(lr *verifLayerRun, job verifDirJob) []verifDirJob 
 					_, own = nd.ent.xattrs[x]
 				}
 				if errno == 0 && !own && x != "user.foo" {
-					out.Fail("opaque-xattr-on-non-opaque-dir", where("Getxattr on non-directory "+nme)+": "+res)
+					h.fail("opaque-xattr-on-non-opaque-dir", where("Getxattr on non-directory "+nme)+": "+res)
 				}
 			}
 		}
@@ -1067,12 +1085,12 @@ func (h *verifC07) exploreState(lr *verifLayerRun) {
 	var eo fuse.EntryOut
 	sti, errno := b.root.Lookup(context.Background(), stateDirName, &eo)
 	if errno != 0 {
-		out.Fail("state-dir-not-served", fmt.Sprintf("Lookup(%q) errno %d", stateDirName, int(errno)))
+		h.fail("state-dir-not-served", fmt.Sprintf("Lookup(%q) errno %d", stateDirName, int(errno)))
 		return
 	}
 	st, ok := sti.Operations().(*state)
 	if !ok {
-		out.Fail("state-dir-not-served", "not a state node")
+		h.fail("state-dir-not-served", "not a state node")
 		return
 	}
 	wantName := b.dgst.String() + ".json"
@@ -1083,7 +1101,7 @@ func (h *verifC07) exploreState(lr *verifLayerRun) {
 			ds, errno := st.Readdir(context.Background())
 			if errno != 0 {
 				out.Emit("st.readdir", "eio")
-				out.Fail("statfile-not-listed", "state.Readdir failed")
+				h.fail("statfile-not-listed", "state.Readdir failed")
 				continue
 			}
 			var es []verifEntOut
@@ -1093,7 +1111,7 @@ func (h *verifC07) exploreState(lr *verifLayerRun) {
 			}
 			out.Emit("st.readdir", "ok "+verifEntsString(append([]verifEntOut(nil), es...)))
 			if len(es) != 1 || es[0].name != wantName || es[0].mode != syscall.S_IFREG|0400 {
-				out.Fail("statfile-not-listed", fmt.Sprintf("state dir lists %v, want only %q", es, wantName))
+				h.fail("statfile-not-listed", fmt.Sprintf("state dir lists %v, want only %q", es, wantName))
 			} else {
 				h.noteIno(lr, "statfile", es[0].ino, "state.Readdir")
 			}
@@ -1116,12 +1134,12 @@ func (h *verifC07) exploreState(lr *verifLayerRun) {
 			out.Emit("st.lookup "+verifHex(name), res)
 			if b.blob.size > 0 {
 				if (name == wantName) != (errno == 0) {
-					out.Fail("statfile-listing-lookup-disagree", fmt.Sprintf("state.Lookup(%q): %s", name, res))
+					h.fail("statfile-listing-lookup-disagree", fmt.Sprintf("state.Lookup(%q): %s", name, res))
 				}
 				if errno == 0 {
 					h.noteIno(lr, "statfile", eo2.Attr.Ino, "state.Lookup")
 					if _, ok := in.Operations().(*statFile); !ok || eo2.Attr.Mode != syscall.S_IFREG|0400 {
-						out.Fail("statfile-not-listed", "state.Lookup: "+res)
+						h.fail("statfile-not-listed", "state.Lookup: "+res)
 					}
 				}
 			}
@@ -1131,7 +1149,7 @@ func (h *verifC07) exploreState(lr *verifLayerRun) {
 			if errno != 0 {
 				out.Emit("st.read", "eio")
 				if b.blob.size > 0 {
-					out.Fail("statfile-unreadable", fmt.Sprintf("statFile.Read errno %d", int(errno)))
+					h.fail("statfile-unreadable", fmt.Sprintf("statFile.Read errno %d", int(errno)))
 				}
 				continue
 			}
@@ -1140,7 +1158,7 @@ func (h *verifC07) exploreState(lr *verifLayerRun) {
 			dec := json.NewDecoder(strings.NewReader(string(data)))
 			if err := dec.Decode(&m); err != nil {
 				out.Emit("st.read", "invalid-json")
-				out.Fail("statfile-invalid-json", fmt.Sprintf("%q: %v", data, err))
+				h.fail("statfile-invalid-json", fmt.Sprintf("%q: %v", data, err))
 				continue
 			}
 			var keys []string
@@ -1171,9 +1189,9 @@ func (h *verifC07) exploreState(lr *verifLayerRun) {
 				FetchedSize *int64  `json:"fetchedSize"`
 			}
 			if err := json.Unmarshal(data, &sj); err != nil || sj.Digest == nil || sj.Size == nil || sj.FetchedSize == nil {
-				out.Fail("statfile-field-missing", fmt.Sprintf("%q", data))
+				h.fail("statfile-field-missing", fmt.Sprintf("%q", data))
 			} else if *sj.Digest != b.dgst.String() || *sj.Size != b.blob.size || *sj.FetchedSize != b.blob.fetchedSize {
-				out.Fail("statfile-wrong-values", fmt.Sprintf("%q, want digest=%s size=%d fetchedSize=%d", data, b.dgst, b.blob.size, b.blob.fetchedSize))
+				h.fail("statfile-wrong-values", fmt.Sprintf("%q, want digest=%s size=%d fetchedSize=%d", data, b.dgst, b.blob.size, b.blob.fetchedSize))
 			}
 		case 3:
 			nf := int64(rnd.Intn(int(b.blob.size) + 2))
@@ -1560,7 +1578,7 @@ func (h *verifC07) runStack(nlayers int) {
 		m, mok := merged[p]
 		a, aok := applied[p]
 		if mok != aok || m != a {
-			out.Fail("merged-ne-applied", fmt.Sprintf("path %q: overlay of the served layers gives %s, applying the tars gives %s; kernel xattr %s mode %s;%s",
+			h.fail("merged-ne-applied", fmt.Sprintf("path %q: overlay of the served layers gives %s, applying the tars gives %s; kernel xattr %s mode %s;%s",
 				p, verifRefString(m, mok), verifRefString(a, aok), kxName, verifOmNames[om], specs))
 			break
 		}
